@@ -189,7 +189,8 @@ text_st = st.text(alphabet=st.characters(min_codepoint=0x20, max_codepoint=0x7E)
 # lengths 10 and 13 (whose length octet is LF / CR) represented
 LAYER_TEXTS = ["1.8.0(123)", "1.8.0(1*kW)", "1-0:1.8.0(1)", "31.7.0(1*A)\r\n", "/ABC5x\r\n!\r\n", "!ABCD", "(1)(2)", "0.0(0)", "1.7.0(12345)", "2.8.0(00001*kWh)", "1.0.0(210222161900W)"]
 text1_st = st.one_of(st.text(alphabet=st.characters(min_codepoint=0x20, max_codepoint=0x7E), min_size=1, max_size=24), st.text(alphabet=st.characters(min_codepoint=0x20, max_codepoint=0x7E), min_size=1, max_size=24), st.sampled_from(LAYER_TEXTS))
-ascii_text_st = st.one_of(text_st, st.text(alphabet=st.characters(min_codepoint=0x00, max_codepoint=0x7F), min_size=0, max_size=24), text_st.map(lambda t: t[:20] + "\x00\x00"), st.sampled_from(LAYER_TEXTS))
+long_text_st = st.tuples(st.sampled_from([127, 128, 129, 200, 255]) | st.integers(25, 255), st.integers(0, 2**31)).map(lambda t: "".join(__import__("random").Random(t[1]).choices("ABCDEFGHIJKLMNOPQRSTUVWXYZabcdefghijklmnopqrstuvwxyz0123456789 _-", k=t[0])))
+ascii_text_st = st.one_of(text_st, text_st, long_text_st, st.text(alphabet=st.characters(min_codepoint=0x00, max_codepoint=0x7F), min_size=0, max_size=24), text_st.map(lambda t: t[:20] + "\x00\x00"), st.sampled_from(LAYER_TEXTS))
 small_reg_st = st.integers(0, 127) | st.sampled_from([41, 0x29, 0x21, 0x2F])  # registers whose octets are all 7-bit ASCII
 
 # ============================================================================================================
@@ -411,6 +412,10 @@ def kamstrup_list_st(draw):
             items.append((code, name, "u16", draw(reg_st("u16"))))
         else:
             items.append((code, name, "u32", draw(reg_st("u32"))))
+    if draw(st.integers(0, 7)) == 7:
+        items = [it for it in items if it[1] != "meter_type"]  # no meter type element at all: nothing says CT
+        if draw(st.booleans()):
+            items = [it for it in items if it[1] != "meter_id"]
     if draw(st.integers(0, 3)) == 3:
         items = list(draw(st.permutations(items)))  # the statement fixes no element order (only: list version first)
     pad_mode = draw(st.sampled_from(["none", "none", "some", "all"]))
@@ -426,7 +431,7 @@ def kamstrup_body(list_ver, items, pads):
     body = bytearray([T_STRUCT, 1 + 2 * len(items)])
     body += visible(list_ver) + bytes(pads[0])
     exp = {"meter_manufacturer": "Kamstrup", "list_ver_id": list_ver}
-    mtype = next(v for _c, n, _k, v in items if n == "meter_type")
+    mtype = next((v for _c, n, _k, v in items if n == "meter_type"), "")
     is_ct = mtype.startswith("685")
     for (code, name, kind, v), pad in zip(items, pads[1:]):
         body += obis6(code)
